@@ -2,4 +2,4 @@
 # Re-runs every stored seeded change against the current quick checks (scratch copies of /repo/src); prints one line per seed.
 cd "$(dirname "$0")/.."
 jobs=${1:-2}
-ls seeded | xargs -P $jobs -I{} sh -c 'p=$(/venv/bin/python -c "import json,sys; print(json.load(open(sys.argv[1])).get(\"eval_with\", sys.argv[2]))" seeded/{}/meta.json $(echo {} | cut -c1-3)); r=$(tools/mutate.py --patch seeded/{}/patch.diff $p 2>&1 | grep "CAUGHT\|MISSED\|HARNESS\|STALE" | head -1); echo "{} $r"'
+ls seeded | grep -v -x -F "$(grep -l '"obsolete": true' seeded/*/meta.json | cut -d/ -f2)" | xargs -P $jobs -I{} sh -c 'p=$(/venv/bin/python -c "import json,sys; print(json.load(open(sys.argv[1])).get(\"eval_with\", sys.argv[2]))" seeded/{}/meta.json $(echo {} | cut -c1-3)); r=$(tools/mutate.py --patch seeded/{}/patch.diff $p 2>&1 | grep "CAUGHT\|MISSED\|HARNESS\|STALE" | head -1); echo "{} $r"'
